@@ -483,3 +483,69 @@ for _ti in range(len(T_UNH)):
             body_unhashable_image(_ti, _vk, 1)
         except Exception:
             pass
+
+
+# ------------------------------------------------------------------ keys that collide AFTER conversion
+
+import decimal as _decimal
+import fractions as _fractions
+import pathlib as _pathlib
+
+T_COLL = (t.Dict[_decimal.Decimal, int], t.Dict[_fractions.Fraction, int], t.Dict[_pathlib.PurePosixPath, int], t.Mapping[_fractions.Fraction, str],
+          t.List[t.Dict[_decimal.Decimal, int]], t.Dict[str, t.Dict[_fractions.Fraction, int]], t.Optional[t.Dict[_decimal.Decimal, int]])
+for _ty in T_COLL:
+    try:
+        make_converter(_ty)
+    except Exception:
+        pass
+
+
+def coll_value(ti, vk, i):
+    """mappings whose keys are different texts of the same number / path: every key and value is valid on its own"""
+    if ti == 0 or ti == 4 or ti == 6:
+        d = {'1.0': i, '1.00': 2} if vk == 0 else ({'1.0': i} if vk == 1 else {'1.0': i, 'x': 2})
+    elif ti == 1 or ti == 3 or ti == 5:
+        d = {'1/2': i, '2/4': 2} if vk == 0 else ({'1/2': i} if vk == 1 else {'1/2': i, '1/0': 2})
+        if ti == 3:
+            d = {k: 's' for k in d}
+    else:
+        d = {'a/b': i, 'a//b': 2} if vk == 0 else ({'a/b': i} if vk == 1 else {'a/b': i, 7: 2})
+    if ti == 4:
+        return [d]
+    if ti == 5:
+        return {'k': d}
+    return d
+
+
+@obligation(pre="0 <= ti <= 6 and 0 <= vk <= 2", witnesses=(0, -1), timeout=200)
+def body_colliding_keys(ti: int, vk: int, i: int) -> int:
+    """two distinct keys that convert to the SAME key (texts of one Decimal / Fraction / path): accepted or rejected, but nothing other than ConvertError escapes"""
+    n = 0
+    ty = T_COLL[0]
+    sel = 0
+    for x in T_COLL:
+        if n == ti:
+            ty = x
+            sel = n
+        n += 1
+    v = coll_value(sel, 0 if vk == 0 else (1 if vk == 1 else 2), cint(i))
+    res = 0
+    for use_convert in (False, True):
+        try:
+            if use_convert:
+                pane.convert(v, ty)
+            else:
+                pane.from_data(v, ty)
+        except ConvertError:
+            res = -1
+        except Exception as e:
+            return classify(e)
+    return res
+
+
+for _ti in range(7):
+    for _vk in range(3):
+        try:
+            body_colliding_keys(_ti, _vk, 1)
+        except Exception:
+            pass
